@@ -38,7 +38,8 @@ Report(st, p, t) ==
   ELSE LET x == Expired(p.expires, t)  v == Tally(p) IN
        IF ImplPassed(p.thr, p.total, v, x, TRUE) THEN "passed"
        ELSE IF ImplRejected(p.thr, p.total, v, x) \/ x THEN "rejected" ELSE "open"
-Refresh(ps, sts, t) == [i \in 1..Len(ps) |-> [ps[i] EXCEPT !.status = Report(sts[i], ps[i], t)]]
+SetStatus(p, st) == [p EXCEPT !.status = st, !.lstatus = st, !.rstatus = st]
+Refresh(ps, sts, t) == [i \in 1..Len(ps) |-> SetStatus(ps[i], Report(sts[i], ps[i], t))]
 
 Init ==
   \E m \in InitVoters :
@@ -69,14 +70,15 @@ ExpiryFor(lt) == LET mx == MaxExpiry(now) IN IF lt.k = mx.k /\ lt.v < mx.v THEN 
 DoPropose(by, kind, lt) ==
   LET w == voters[by]
       id == Len(props) + 1
-      p0 == [id |-> id, status |-> "open", expires |-> ExpiryFor(lt), thr |-> Thr,
+      p0 == [id |-> id, status |-> "open", lstatus |-> "open", rstatus |-> "open", expires |-> ExpiryFor(lt), thr |-> Thr,
              total |-> IF Flavour = "flex" THEN SumW(voters) ELSE gtotal,
+             ltotal |-> IF Flavour = "flex" THEN SumW(voters) ELSE gtotal, rtotal |-> IF Flavour = "flex" THEN SumW(voters) ELSE gtotal,
              proposer |-> by, msgs |-> MsgOf(kind), title |-> "t", dep |-> Dep,
              ballots |-> [a \in Addr |-> IF a = by THEN [vote |-> "yes", w |-> w] ELSE NoBallot],
              nvotes |-> 1,
              osnap |-> IF Flavour = "flex" THEN startVoters ELSE voters]
       st == Report("open", p0, now)
-      ps == Append(props, [p0 EXCEPT !.status = st])
+      ps == Append(props, SetStatus(p0, st))
   IN
   /\ Len(props) < MaxProps
   /\ w >= 0                                            \* any member, also with weight 0
@@ -100,7 +102,7 @@ DoVote(by, id, vote) ==
   /\ props[id].ballots[by].vote = "none"
   /\ LET p1 == [props[id] EXCEPT !.ballots[by] = [vote |-> vote, w |-> snap[id][by]], !.nvotes = @ + 1]
          st == Report(stored[id], p1, now)
-         ps == [props EXCEPT ![id] = [p1 EXCEPT !.status = st]]
+         ps == [props EXCEPT ![id] = SetStatus(p1, st)]
      IN /\ props' = ps /\ stored' = [stored EXCEPT ![id] = st]
         /\ rejEarly' = RejEarlyNext(ps, now, FALSE)
   /\ out' = <<>>
@@ -115,7 +117,7 @@ DoExecute(by, id) ==
   /\ Report(stored[id], props[id], now) = "passed"
   /\ Authorised(by)
   /\ ~FailingKind(IF props[id].msgs = <<>> THEN "none" ELSE props[id].msgs[1].tag)
-  /\ LET ps == [props EXCEPT ![id].status = "executed"] IN
+  /\ LET ps == [props EXCEPT ![id] = SetStatus(@, "executed")] IN
      /\ props' = ps /\ stored' = [stored EXCEPT ![id] = "executed"]
      /\ rejEarly' = RejEarlyNext(ps, now, FALSE)
   /\ execd' = [execd EXCEPT ![id] = @ + 1]
@@ -131,7 +133,7 @@ DoClose(by, id) ==
   /\ stored[id] = "open"                                            \* D6: a stored Rejected is refused
   /\ Report(stored[id], props[id], now) # "passed"
   /\ Expired(props[id].expires, now)
-  /\ LET ps == [props EXCEPT ![id].status = "rejected"] IN
+  /\ LET ps == [props EXCEPT ![id] = SetStatus(@, "rejected")] IN
      /\ props' = ps /\ stored' = [stored EXCEPT ![id] = "rejected"]
      /\ rejEarly' = RejEarlyNext(ps, now, FALSE)
   /\ closedH' = [closedH EXCEPT ![id] = TRUE]
